@@ -53,6 +53,7 @@ int  spawn(std::function<void()> fn, const char* name = "user", size_t stack_byt
 void join(int fid);
 int  self();            // fiber id, -1 outside a run
 bool is_scenario_fiber(int fid);
+bool fiber_done(int fid);
 uint64_t step();        // global schedule-point counter (total order stamp)
 uint64_t now_ns();      // simulated clock
 int  nfibers();
@@ -86,6 +87,8 @@ void probe(const char* name);                 // reach counter ("this rare branc
 void fault_fired(const char* kind);           // fault accounting for evidence
 void note(const char* fmt, ...) __attribute__((format(printf, 1, 2)));   // goes to the trace only
 // mark the run as non-trivial-eligible: >=2 fibers were inside the operation window
+// free-form context appended to deadlock / livelock / budget messages (used to attribute hangs)
+void set_tag(const char* fmt, ...) __attribute__((format(printf, 1, 2)));
 void mark_window();
 void set_sample(const std::string& program_text);   // human-readable program for evidence samples
 
